@@ -15,10 +15,11 @@ OBLIGATIONS = [
     "PgmVerif.C05_column_meaning", "PgmVerif.C05_get_values", "PgmVerif.C05_reorder_parents",
     "PgmVerif.C05_col_normalize", "PgmVerif.C05_marginalize", "PgmVerif.C05_reduce",
     "PgmVerif.C05_valid_sound", "PgmVerif.C05_valid_complete", "PgmVerif.C05_check_model_iff",
-    "PgmVerif.C05_atol_tie", "PgmVerif.C05_joint_mass_one",
+    "PgmVerif.C05_atol_tie", "PgmVerif.C05_joint_mass_one", "PgmVerif.C05_joint_mass_within_tolerance",
 ]
-PARTIAL = ["joint mass = 1 is proved for exact column sums (C05_joint_mass_one); the tolerance version ((1-t)^n <= sum <= (1+t)^n) is checked "
-           "per generated network in the correspondence",
+PARTIAL = ["joint mass = 1 is proved for exact column sums (C05_joint_mass_one) and (1-t)^n <= mass <= (1+t)^n for column sums within t of 1 "
+           "(C05_joint_mass_within_tolerance, every t <= 1, every network); that check_model's float test accepts exactly the columns within "
+           "t = atol + rtol (numpy allclose) is compared per generated network in the correspondence",
            "state-name preservation is compared differentially (labels are not part of the table model)"]
 RULE = ("random CPDs with 0-3 parents, cards 1-4, all label kinds, every parent permutation / subset; validation on networks that are "
         "correct or wrong in exactly one respect; non-trivial = at least one parent or a mutated network; distinct = distinct case JSON")
